@@ -4,6 +4,18 @@ import math
 import copy
 
 
+def _Divide(elementType, a, b):
+    """One component of a vector division: integers divide like the scalar
+    DIV, truncating towards zero."""
+    if isinstance(elementType, LinearIR.IntegerType):
+        quotient = abs(a) // abs(b)
+        if (a < 0) != (b < 0):
+            quotient = -quotient
+        return quotient
+
+    return a / b
+
+
 class ExecutionContext:
     def __init__(self, functions, globalScope: Dict[str, Any]):
         self.__globalScope = globalScope
@@ -231,7 +243,10 @@ class ExecutionContext:
                         case LinearIR.OpCode.VECTOR_SUB:
                             localScope[ref] = [x - y for x, y in zip(op1, op2)]
                         case LinearIR.OpCode.VECTOR_DIV:
-                            localScope[ref] = [x / y for x, y in zip(op1, op2)]
+                            localScope[ref] = [
+                                _Divide(instruction.Type.ElementType, x, y)
+                                for x, y in zip(op1, op2)
+                            ]
                         case LinearIR.OpCode.VECTOR_MUL:
                             localScope[ref] = [x * y for x, y in zip(op1, op2)]
                         case LinearIR.OpCode.VECTOR_CMP_GT:
@@ -261,7 +276,10 @@ class ExecutionContext:
                         case LinearIR.OpCode.VECTOR_MUL_SCALAR:
                             localScope[ref] = [v * op2 for v in op1]
                         case LinearIR.OpCode.VECTOR_DIV_SCALAR:
-                            localScope[ref] = [v / op2 for v in op1]
+                            localScope[ref] = [
+                                _Divide(instruction.Type.ElementType, v, op2)
+                                for v in op1
+                            ]
                         case LinearIR.OpCode.MATRIX_MUL_MATRIX:
                             localScope[ref] = self.__MatrixMatrixMultiply(
                                 instruction.Type.Shape, op1, op2
